@@ -43,7 +43,9 @@ def run(ctx):
                       "tested by h_wal on the real GMessage codec (codec lines); the driver itself runs the token codec",
                       "record-level abstraction in the driver: a record is two tokens whose weights add up to the real "
                       "encoded size; any byte offset strictly inside a record maps to the one-token prefix"],
-        assumptions=["no storage errors (open/write/fsync/remove succeed)",
+        assumptions=["storage errors: open/fsync/remove succeed; a write(2) that fails part-way IS exercised (RLIMIT_FSIZE around "
+                     "one Append): the Append is not acknowledged and must leave no fragment (S15, fixed) — the model's failed "
+                     "append writes nothing",
                      "file names (wall-clock timestamps) are fresh; a clash makes Append fail (modelled)"],
         search=search,
         extra_cov={"torn_offsets": hist.get("torn_0", 0) + hist.get("torn_mid", 0) + hist.get("torn_full", 0),
